@@ -15,7 +15,8 @@ PARTIAL = ["the theorem is stated on trails (nodes may repeat, Koller-Friedman);
            "path-enumeration spec is confirmed exhaustively (all DAGs <= 4 nodes quick, 5 nodes thorough), not proved",
            "minimality / existence of the returned separator: checked per case against the spec"]
 RULE = ("exhaustive: every labelled DAG on <=4 nodes x every observed subset x every start node (x name kinds / observed container kinds); "
-        "random DAGs to 7 nodes with latents; non-trivial = graph has an edge; distinct = case JSON")
+        "random DAGs to 7 nodes with latents; non-trivial = graph has an edge; distinct = case JSON"
+        " Also: BayesianNetwork objects, per-graph insertion order, latent end points and latent flags set after the structure, multi-variable local_independencies, a sample of the 5-node DAGs in the quick tier.")
 ASSUMPTIONS = ["networkx predecessors/successors are adjacency look-ups"]
 BUDGET_QUICK = 80
 LEVEL_TEXT = ("Kernel-checked: C08_reach_iff_active_trail - for every acyclic graph, observed set and unobserved start node, a (node, direction) "
